@@ -110,6 +110,7 @@ type Dechunker struct {
 	// EndOffsets[i] is the stream offset just after the last byte of Msgs[i].
 	EndOffsets []int
 	Consumed   int // bytes of whole chunks consumed so far
+	ChunkEnds  []int // stream offset after every whole chunk
 	Err        error
 	// Strict makes the three violations listed by property C02 errors.
 	Strict bool
@@ -246,6 +247,7 @@ func (d *Dechunker) one(p []byte) int {
 	ns.seen = true
 	ns.inMsg = true
 	d.Consumed += n
+	d.ChunkEnds = append(d.ChunkEnds, d.Consumed)
 	if len(ns.have) == int(ns.length) {
 		m := Msg{CSID: csid, Type: ns.typ, StreamID: ns.sid, Timestamp: ns.ts, Payload: ns.have}
 		d.Msgs = append(d.Msgs, m)
